@@ -749,7 +749,7 @@ fn main() {
     let mut rep = Report::new(
         "case = one generated record set (side alignment/variant, class, seed) restricted to the common data model; per set every \
          (format, compression) pair of the noodles-util writer builders {SAM, SAM.gz, BAM, raw BAM, CRAM} / {VCF, VCF.gz, BCF, raw BCF} is \
-         written by the generic writer, checked for shape, read back by the autodetecting generic reader (slice and 13-17 scripted \
+         written by the generic writer, checked for shape, read back by the autodetecting generic reader (slice and 13 [quick] / 17 [thorough] scripted \
          first-read windows), by the reader of the intended format and through read_record; then all ordered (source, target) pairs are \
          converted generic reader -> generic writer and read back. evaluations = detection runs + conversion pairs; distinct = distinct \
          (side, set class, format, window script) and (side, set class, source, target); non-trivial = all (every run writes and reads a file)",
@@ -761,8 +761,22 @@ fn main() {
             .into(),
     );
     rep.assumptions.push(
-        "common model: unique read names, upper-case ACGTN bases, qualities present, CIGAR over M/I/D/N/S, reads inside their reference, CRAM given the generated \
-         reference sequences through set_reference_sequence_repository; VCF values BCF can represent, every FILTER/INFO/FORMAT/contig defined in the header"
+        "common model, alignment: unique read names, upper-case ACGTN bases, qualities present (a lone quality 9 = text '*' avoided), CIGAR over M/I/D/N/S with \
+         reads inside their reference, unmapped reads without MAPQ (CRAM has no MQ for them), CRAM given the generated reference sequences through \
+         set_reference_sequence_repository; variant: every FILTER/INFO/FORMAT/contig defined in the header, values BCF can represent; values the noodles BCF \
+         writer rejects with an explicit error are not generated (missing per-sample String / Float-array values, a missing GT value)"
+            .into(),
+    );
+    rep.assumptions.push(
+        "shapes that hit understood defects are kept out of the random sets and covered by one minimal deterministic witness set each (class witness-*; \
+         everything such a set trips is reported under the single signature <side>-witness[<shape>]): headerless SAM whose first QNAME starts with CRAM, placed \
+         unmapped read overhanging its reference end, GT of mixed ploidy >= 2, phased missing allele, Integer-vector FORMAT field missing in all samples, INFO key \
+         with missing value, per-sample vectors of unequal length, a sample column that is '.' altogether"
+            .into(),
+    );
+    rep.assumptions.push(
+        "build_from_reader wraps the source in its own 8 KiB BufReader, so an outer BufReader of small capacity is bypassed; short first windows are produced \
+         with vcore::adv::ChunkedRead scripts at the Read level (no Interrupted injections: C12's business); the async and indexed generic readers are not driven"
             .into(),
     );
     let cases = gen_cases(&ctx);
